@@ -17,7 +17,7 @@
    never mention a variable name or the shape of a generated tree. *)
 From Coq Require Import String Lia ZifyBool ZifyNat ZifyN.
 From Curtsies Require Import Model.Base Gen.Tables Gen.Pure Spec.PyMini Spec.PyEnv Model.Utf8 Model.Keys
-  Proofs.PyStep Proofs.PureTie.
+  Proofs.PyStep Proofs.PureTieBase Proofs.PureTieUtf8.
 Local Open Scope Z_scope.
 
 (* ---- embeddings of the model's values ------------------------------------------------ *)
